@@ -89,12 +89,48 @@ let rec parse (ws : string list) : expr * string list =
 
 let b2s b = if b then "1" else "0"
 
+(* expansion model: "X <nmacros> ; <body of macro 0> ; ... ; <input>" with tokens i<n> (identifier n; the
+   macros are identifiers 0..nmacros-1) and o<k> (other token k); output tokens i<n>, p<n> (painted), o<k> *)
+let rec nat_of_int n = if n <= 0 then O else S (nat_of_int (n - 1))
+let rec int_of_nat = function O -> 0 | S n -> 1 + int_of_nat n
+
+let tok_of_string w =
+  let n = int_of_string (String.sub w 1 (String.length w - 1)) in
+  match w.[0] with
+  | 'i' -> TId (nat_of_int n)
+  | 'o' -> TOther (nat_of_int n)
+  | _ -> failwith ("bad token " ^ w)
+
+let string_of_tok = function
+  | TId n -> "i" ^ string_of_int (int_of_nat n)
+  | TPainted n -> "p" ^ string_of_int (int_of_nat n)
+  | TOther n -> "o" ^ string_of_int (int_of_nat n)
+
+let run_expand ws =
+  match ws with
+  | nm :: rest ->
+    let nm = int_of_string nm in
+    let groups = ref [] and cur = ref [] in
+    List.iter (fun w -> if w = ";" then (groups := List.rev !cur :: !groups; cur := []) else cur := w :: !cur) rest;
+    groups := List.rev !cur :: !groups;
+    let groups = List.rev !groups in
+    (* first group is empty (text before the first ';'), then nm bodies, then the input *)
+    let groups = match groups with [] :: g -> g | g -> g in
+    let bodies = Array.of_list (List.filteri (fun i _ -> i < nm) groups) in
+    let input = List.nth groups nm in
+    let d n = let i = int_of_nat n in if i < nm then Some (List.map tok_of_string bodies.(i)) else None in
+    (match expand d (nat_of_int nm) (List.map tok_of_string input) with
+     | Some out -> String.concat " " (List.map string_of_tok out)
+     | None -> "OUT-OF-FUEL")
+  | [] -> failwith "X needs the macro count"
+
 let () =
   try
     while true do
       let line = input_line stdin in
       let ws = List.filter (fun x -> x <> "") (String.split_on_char ' ' (String.trim line)) in
       if ws = [] then print_endline ""
+      else if List.hd ws = "X" then print_endline (run_expand (List.tl ws))
       else begin
         let q, ws = match ws with
           | "prefix" :: r -> (prefix, r)
